@@ -210,6 +210,7 @@ func main() {
 	mf, ff := lockAnalysis(w)
 	linkFacts(&sb, w, mf.edit, ff.edit)
 	lockFacts(&sb, mf, ff)
+	abortFacts(&sb)
 	sb.WriteString("\nend GocoinV.Gen.MemClasses\n")
 	out := vlib.Root() + "/lean/GocoinV/Gen/MemClasses.lean"
 	if o := os.Getenv("GEN_C20_OUT"); o != "" { // experiments: leave the shared Gen/ file alone
